@@ -31,6 +31,13 @@ func payload(prod, ctr, n int) []byte {
 	b[1] = byte(ctr >> 16)
 	b[2] = byte(ctr >> 8)
 	b[3] = byte(ctr)
+	if prod == sparseProducer {
+		// a big message that is all zeros between its header and a 16 byte tail: cheap to image (sparse copy)
+		for i := n - 16; i < n && i >= 4; i++ {
+			b[i] = byte(0xA5 ^ i)
+		}
+		return b
+	}
 	x := uint64(prod)*0x9E3779B97F4A7C15 + uint64(ctr)*0xBF58476D1CE4E5B9 + uint64(n)
 	for i := 4; i < n; i++ {
 		x ^= x << 13
@@ -40,6 +47,8 @@ func payload(prod, ctr, n int) []byte {
 	}
 	return b
 }
+
+const sparseProducer = 250
 
 func identify(b []byte) (prod, ctr int, ok bool) {
 	if len(b) < 4 {
@@ -572,7 +581,8 @@ func caseCrash(res *caseResult, idx int, dir string, seed int64) {
 	seam.InstallQueuePages(world, &seam.Observer{
 		PageWriteData: func(path string, offset int, data []byte) { st.onBytes(path, offset, data) },
 	})
-	world.Enable(true)
+	rollover := idx%4 == 3 // crash points after a data page roll-over: the appends under imaging go to data page 1
+	world.Enable(!rollover)
 	world.Snapshot("initial")
 	createFirst := world.Count()
 	q, err := queue.NewQueue(qdir, pageSize)
@@ -582,6 +592,18 @@ func caseCrash(res *caseResult, idx int, dir string, seed int64) {
 	}
 	createLast := world.Count()
 	var order []*putRec
+	if rollover {
+		res.Config += " rollover=true"
+		reopenAt, twoAppenders, nPuts = -1, false, 4
+		order = append(order, st.doPut(q, sparseProducer, 0, pageSize-8192, world)) // fills data page 0
+		order = append(order, st.doPut(q, sparseProducer, 1, 16384, world))         // does not fit: rolls over to page 1
+		world.Enable(true)
+		world.Snapshot("after-rollover")
+		for _, p := range order {
+			p.First, p.Last = 0, 0 // returned before the first image that matters
+		}
+		st.count("crash_histories_after_data_page_rollover", 1)
+	}
 	for c := 0; c < nPuts; c++ {
 		if c == reopenAt {
 			q.Close()
